@@ -300,9 +300,14 @@ static std::string dispatch(const std::string &op, const Args &a)
     if (op == "from_float") return text_payload(ST::string::from_float(flt_of(a[0]), char(i64(a[1]))));
     if (op == "stream_double" || op == "stream_float") {
         ST::string_stream ss;
+        size_t fill = a.size() > 1 ? size_t(u64(a[1])) : 0;
+        ss.append_char('a', fill);
         if (op == "stream_double") ss << dbl_of(a[0]);
         else ss << flt_of(a[0]);
-        return text_payload(ss.to_string());
+        // what was inserted: everything after the prefix (the prefix itself must be intact)
+        std::string all(ss.raw_buffer(), ss.size());
+        if (all.size() < fill || all.compare(0, fill, std::string(fill, 'a')) != 0) return "OK prefix-corrupted";
+        return text_payload(ST::string::from_validated(all.data() + fill, all.size() - fill));
     }
     if (op == "to_double" || op == "to_float") {
         ST::string s = text_arg(a[0]);
